@@ -129,6 +129,8 @@ class CoapAccessory:
         self.requests: list = []
         self.verify_mode = "ok"
         self.site = None
+        self.posts_without_session = 0
+        self.verify_messages = 0
         self.subscribed: set[int] = set()
         self.decrypt_errors = 0
 
@@ -160,6 +162,7 @@ class CoapAccessory:
 
         path = "/".join(msg.opt.uri_path)
         if path == "2":
+            self.verify_messages += 1
             items = reftlv.decode(bytes(msg.payload))
             state = dict(items).get(6)
             if state == b"\x01":
@@ -176,6 +179,9 @@ class CoapAccessory:
                         "event": ChaCha20Poly1305(ex.event_key), "rc": 0, "sc": 0, "ec": 0,
                     }
             return Message(code=Code.CHANGED, payload=reftlv.encode(reply))
+        if path == "" and self.session is None:
+            # ground truth: an encrypted request handed to a peer that has NOT completed pair-verify
+            self.posts_without_session += 1
         if path == "" and self.session is not None:
             s = self.session
             try:
@@ -312,6 +318,49 @@ async def c01_sessions(ctx) -> None:
                 ctx.violation("coap-event-key-mismatch", f"event answered {resp.code}, listener saw {events!r}", replay)
                 continue
             ctx.count("coap_end_to_end_sessions")
+            # ---- the session ends by a fault (the accessory lost power: 4.04 to the next request / a request that is never
+            # answered); whoever answers afterwards has to prove itself again - an impostor gets pair-verify and nothing else
+            fault = ["reboot-404", "silent", "garbage-reply"][idx % 3]
+            acc.session = None
+            hang = asyncio.Event()
+            orig_handle = acc.handle
+            if fault != "reboot-404":
+                async def handle(msg, orig=orig_handle):
+                    if "/".join(msg.opt.uri_path) == "":
+                        if fault == "silent":
+                            await hang.wait()
+                        return Message(code=Code.CHANGED, payload=rng.randbytes(40))
+                    return await orig(msg)
+
+                acc.handle = handle
+                for c in fac.created:
+                    c.handler = handle
+            try:
+                await asyncio.wait_for(conn.read_characteristics([(1, 11)]), 120)
+                ctx.violation("coap-read-succeeds-without-session", f"the accessory lost its session ({fault}); the read returned", replay)
+                continue
+            except Exception:  # noqa: BLE001 - the operation that meets the fault fails
+                pass
+            acc.handle = orig_handle
+            for c in fac.created:
+                c.handler = orig_handle
+            acc.verify_mode = "bad_sig"
+            posts0, verifies0 = acc.posts_without_session, acc.verify_messages
+            outcomes = []
+            for n in range(2):
+                try:
+                    # what CoAPPairing._ensure_connected does before every operation
+                    if not conn.is_connected:
+                        await asyncio.wait_for(conn.connect(acc.pairing_data()), 120)
+                    r = await asyncio.wait_for(conn.read_characteristics([(1, 11)]), 120)
+                    outcomes.append(("returned", r))
+                except Exception as ex:  # noqa: BLE001
+                    outcomes.append(("raised", type(ex).__name__))
+            if acc.posts_without_session != posts0 or acc.session is not None or any(o[0] == "returned" for o in outcomes) or acc.verify_messages == verifies0:
+                ctx.violation("request-sent-to-unverified-peer", f"CoAP: after the session ended by {fault}, an impostor answered (pair-verify M2 does not authenticate); operations ended {outcomes}; "
+                              f"pair-verify messages since: {acc.verify_messages - verifies0}, encrypted requests handed to the unverified peer: {acc.posts_without_session - posts0}", replay)
+                continue
+            ctx.count("coap_relink_impostor_probes")
         finally:
             fac.remove()
 
